@@ -103,9 +103,27 @@ class Engine:
     def _check(self, *extra):
         t = time.time()
         self.stats.queries += 1
-        r = self.solver.check(*self.background, *self.pc, *extra)
+        cons = list(self.background) + list(self.pc) + list(extra)
+        full = self.timeout_ms
+        # feasibility checks: a quick attempt, then short restarts with another engine / seed (heavy-tailed nonlinear queries);
+        # 'unknown' only marks the path uncertain, so the full budget is not spent here
+        self.solver.set('timeout', min(2000, full))
+        s = str(self.solver.check(*cons))
+        self.solver.set('timeout', full)
+        if s == 'unknown':
+            for kind, seed, ms in (('nlsat', 0, 3000), ('smt', 3, 3000), ('nlsat', 5, 5000)):
+                try:
+                    s2 = z3.Tactic('qfnra-nlsat').solver() if kind == 'nlsat' else z3.Solver()
+                    s2.set('timeout', min(ms, full))
+                    if seed:
+                        s2.set('random_seed', seed)
+                    s2.add(*cons)
+                    s = str(s2.check())
+                except z3.Z3Exception:
+                    s = 'unknown'
+                if s != 'unknown':
+                    break
         self.stats.solver_s += time.time() - t
-        s = str(r)
         if s == 'unsat':
             self.stats.unsat += 1
         elif s == 'sat':
@@ -241,24 +259,7 @@ class Engine:
         cons = list(self.background) + list(pc) + [c.t if isinstance(c, SymBool) else c for c in extra] + [neg]
         t = time.time()
         self.stats.queries += 1
-        s = self.solver
-        if nonlinear:
-            r, model = 'unknown', None
-        else:
-            r = str(s.check(*cons))
-            model = s.model() if r == 'sat' else None
-        if r == 'unknown':
-            try:
-                s2 = z3.Tactic('qfnra-nlsat').solver()
-                s2.set('timeout', self.timeout_ms)
-                s2.add(*cons)
-                r = str(s2.check())
-                model = s2.model() if r == 'sat' else None
-            except z3.Z3Exception:
-                r = 'unknown'
-            if r == 'unknown' and nonlinear:
-                r = str(s.check(*cons))
-                model = s.model() if r == 'sat' else None
+        r, model = self._portfolio(cons, nonlinear)
         self.stats.solver_s += time.time() - t
         if r == 'unsat':
             self.stats.unsat += 1
@@ -266,6 +267,37 @@ class Engine:
             self.stats.sat += 1
         else:
             self.stats.unknown += 1
+        return r, model
+
+    def _portfolio(self, cons, nonlinear=False):
+        """z3's run time on nonlinear real queries is heavy-tailed (the same query took 0.3 s and 49 s in one process):
+        short attempts with different engines / random seeds first, the full budget last.  Any definite answer is final."""
+        full = self.timeout_ms
+        plan = []
+        if not nonlinear:
+            plan.append(('smt', 0, min(1500, full)))
+        plan += [('nlsat', 0, min(3000, full)), ('smt', 1, min(3000, full)), ('nlsat', 7, min(6000, full)), ('smt', 2, min(6000, full)),
+                 ('nlsat', 0, full), ('smt', 0, full)]
+        r, model = 'unknown', None
+        for kind, seed, ms in plan:
+            try:
+                if kind == 'smt' and seed == 0:
+                    s = self.solver
+                    s.set('timeout', ms)
+                    r = str(s.check(*cons))
+                    s.set('timeout', full)
+                else:
+                    s = z3.Tactic('qfnra-nlsat').solver() if kind == 'nlsat' else z3.Solver()
+                    s.set('timeout', ms)
+                    if seed:
+                        s.set('random_seed', seed)
+                    s.add(*cons)
+                    r = str(s.check())
+                model = s.model() if r == 'sat' else None
+            except z3.Z3Exception:
+                r = 'unknown'
+            if r != 'unknown':
+                break
         return r, model
 
     def satisfiable(self, pc, extra=()):
